@@ -410,6 +410,43 @@ def mixed_joiners_case(draw):
     return {"kind": "lines", "lines": lines, "expect_ok": ok, "what": "mixed_joiners"}
 
 
+@st.composite
+def zero_case(draw):
+    """the number zero as an option, as a value and as a threshold: a listed 0 is an option like any other, a value of 0
+    is checked like any other"""
+    is_int = draw(st.booleans())
+    unit = draw(st.sampled_from([None, None, "m", "s"]))
+    u = f" {unit}" if unit else ""
+    z = "0" if is_int else draw(st.sampled_from(["0", "0.0", "0e0"]))
+    pool = [1, 2, 5, 12] if is_int else [0.5, 1.0, 2.5, 12.0]
+    others = draw(st.lists(st.sampled_from(pool), min_size=1, max_size=3, unique=True))
+    zero_listed = draw(st.booleans())
+    what = draw(st.sampled_from(["zero", "zero", "listed", "unlisted"]))
+    val = {"zero": z, "listed": str(others[0]), "unlisted": "7"}[what]
+    fam = draw(st.sampled_from(["options", "options", "condition"]))
+    if fam == "options":
+        opts = [str(o) for o in others]
+        if zero_listed:
+            opts.insert(draw(st.integers(0, len(opts))), z)
+        ok = (what == "zero" and zero_listed) or what == "listed"
+        form = draw(st.sampled_from(["list", "lines"]))
+        cons = ["  !options [" + ",".join(opts) + "]" + u] if form == "list" else [f"  = {o}{u}" for o in opts]
+    else:
+        op, truth0 = draw(st.sampled_from([(">=", True), ("==", True), ("<=", True), (">", False), ("!=", False), ("<", False)]))
+        cons = [f'  !condition ("{{?}} {op} {z}{u}")']
+        num = 0.0 if what == "zero" else float(val)
+        ok = {">=": num >= 0, "==": num == 0, "<=": num <= 0, ">": num > 0, "!=": num != 0, "<": num < 0}[op]
+    tkw = "int" if is_int else "float"
+    how = draw(st.sampled_from(["definition", "modification", "declaration"]))
+    if how == "definition":
+        lines = [f"x {tkw} = {val}{u}"] + cons
+    elif how == "modification":
+        lines = [f"x {tkw} = {others[0]}{u}"] + cons + [f"x = {val}{u}"]
+    else:
+        lines = [f"x {tkw}{u}"] + cons + [f"x = {val}{u}"]
+    return {"kind": "lines", "lines": lines, "expect_ok": ok, "what": "zero_as_option_value_or_threshold"}
+
+
 def strategies(tier):
     return {"numeric": (numeric_case(), 2500, 60000), "string": (string_case(), 800, 20000), "bool": (bool_case(), 200, 4000),
             "array": (array_case(), 600, 12000), "declaration": (decl_case(), 150, 2000),
@@ -417,7 +454,8 @@ def strategies(tier):
             "cross_node": (cross_node_case(), 400, 8000),
             "two_conditions": (two_conditions_case(), 300, 6000), "array_redef": (array_redef_case(), 300, 6000),
             "custom_unit_options": (custom_unit_options_case(), 250, 5000), "format_array": (format_array_case(), 150, 3000),
-            "format_multiline": (format_multiline_case(), 150, 3000), "mixed_joiners": (mixed_joiners_case(), 300, 6000)}
+            "format_multiline": (format_multiline_case(), 150, 3000), "mixed_joiners": (mixed_joiners_case(), 300, 6000),
+            "zero": (zero_case(), 300, 6000)}
 
 
 # --------------------------------------------------------------------------- rendering
